@@ -36,7 +36,7 @@ func init() {
 			{Name: "func-comment-only-with-body", File: "cl/compile.go", Old: "\tcommentFunc(ctx, fn, d)\n\tif rec := ctx.recorder(); rec != nil {", New: "\tif d.Recv == nil {\n\t\tcommentFunc(ctx, fn, d)\n\t}\n\tif rec := ctx.recorder(); rec != nil {", Expect: "func-pass-through/loadFunc"},
 			{Name: "foreign-comments-installed", File: f, Old: "func compileReturnStmt(ctx *blockCtx, expr *ast.ReturnStmt) {\n", New: "func compileReturnStmt(ctx *blockCtx, expr *ast.ReturnStmt) {\n\tctx.cb.SetComments(&goast.CommentGroup{List: []*goast.Comment{{Text: \"// return\"}}}, true)\n", Expect: "comments-census/compileReturnStmt"},
 			{Name: "elseif-bypasses-compileStmt", File: f, Old: "\t\tif stmts, ok := e.(*ast.BlockStmt); ok {\n\t\t\tcompileStmts(ctx, stmts.List)\n\t\t} else {\n\t\t\tcompileStmt(ctx, e)\n\t\t}", New: "\t\tif stmts, ok := e.(*ast.BlockStmt); ok {\n\t\t\tcompileStmts(ctx, stmts.List)\n\t\t} else if ei, ok := e.(*ast.IfStmt); ok {\n\t\t\tcompileIfStmt(ctx, ei)\n\t\t} else {\n\t\t\tcompileStmt(ctx, e)\n\t\t}", Expect: "stmt-route/compileIfStmt→compileIfStmt"},
-			{Name: "funclit-no-restore", File: "cl/expr.go", Old: "\t\tloadFuncBody(ctx, fn, body, nil, v)\n\t\tcb.SetComments(comments, once)\n", New: "\t\tloadFuncBody(ctx, fn, body, nil, v)\n\t\t_, _ = comments, once\n", Expect: "nested-restore/compileFuncLit"},
+			{Name: "lambda2-no-restore", File: "cl/expr.go", Old: "\tcb.End(v)\n\tctx.cb.SetComments(comments, once)\n\treturn nil\n}", New: "\tcb.End(v)\n\t_, _ = comments, once\n\treturn nil\n}", Expect: "nested-restore/compileLambdaExpr2"},
 			{Name: "funcbody-no-restore", File: "cl/compile.go", Old: "\tcomments, once := ctx.cb.BackupComments()\n\tdefer func() {\n\t\tctx.cb.SetComments(comments, once)\n\t}()\n\tcb := fn.BodyStart(ctx.pkg, body)", New: "\tcb := fn.BodyStart(ctx.pkg, body)", Expect: "nested-restore/loadFuncBody"},
 			{Name: "directive-cached-by-line", File: f, Old: "\tpos := ctx.fset.Position(start)\n\tif ctx.relBaseDir != \"\" {\n\t\tpos.Filename = fileLineFile(ctx.relBaseDir, pos.Filename)\n\t}\n\tline := fmt.Sprintf(\"\\n//line %s:%d:1\", pos.Filename, pos.Line)", New: "\tpos := ctx.fset.Position(start)\n\tif lastLineComments != nil && lastLine == pos.Line {\n\t\tcb.SetComments(lastLineComments, false)\n\t\treturn\n\t}\n\tlastLine = pos.Line\n\tif ctx.relBaseDir != \"\" {\n\t\tpos.Filename = fileLineFile(ctx.relBaseDir, pos.Filename)\n\t}\n\tline := fmt.Sprintf(\"\\n//line %s:%d:1\", pos.Filename, pos.Line)", Old2: "func checkStmtDoc(", New2: "var (\n\tlastLine         int\n\tlastLineComments *goast.CommentGroup\n)\n\nfunc checkStmtDoc(", Expect: "line-fresh/commentStmtEx"},
 			{Name: "fileline-guard-inverted", File: f, Old: "\tif ctx.fileLine {\n\t\tcommentStmtEx(ctx.cb, ctx.pkgCtx, stmt)\n\t}", New: "\tif ctx.fileLine && ctx.relBaseDir != \"\" {\n\t\tcommentStmtEx(ctx.cb, ctx.pkgCtx, stmt)\n\t}", Expect: "stmt-guard/commentStmt"},
@@ -54,7 +54,6 @@ var c09DirectCalls = map[string]string{
 var c09NoRestore = map[string]string{
 	"compileStmt":  "the BlockStmt arm: the block is the whole statement, nothing of an enclosing statement is emitted after it in this routine",
 	"compileStmts": "the list walker itself",
-	"loadFunc":     "a top-level function or method body: no enclosing statement",
 }
 
 var c09LineFormat = regexp.MustCompile(`^\n?//line %s:%d(:1)?$`)
@@ -287,7 +286,9 @@ func runC09(c *core.Check) {
 					return false
 				}
 				if call, ok := n.(*ast.CallExpr); ok {
-					if o := calleeObj(info, call); o != nil && (o == compileStmts || o == loadFuncBody) {
+					// loadFuncBody saves and restores the pending directive itself (it is held to this rule below, as a
+					// routine that calls compileStmts), so its callers need no pair of their own
+					if o := calleeObj(info, call); o != nil && o == compileStmts {
 						nested = true
 					}
 				}
@@ -340,7 +341,7 @@ func runC09(c *core.Check) {
 					switch {
 					case fn != nil && fn.Name() == "BackupComments":
 						st |= bSaved
-					case o != nil && (o == compileStmts || o == loadFuncBody):
+					case o != nil && o == compileStmts:
 						st |= bNested
 						st &^= bRestored
 						if st&bSaved == 0 {
@@ -362,6 +363,7 @@ func runC09(c *core.Check) {
 			c.Decide(ok, "nested-restore", name, fd.Pos(), "saves the pending comment group before the nested statements and restores it afterwards on every path", "cl."+name+" lowers a nested statement list without saving the pending //line directive first and restoring it afterwards (BackupComments … SetComments): the inner statements' directives replace the one of the enclosing statement, whose remaining code is then attributed to the last inner line")
 		}
 		c.Floor("nested-restore", 8)
+		_ = loadFuncBody
 	}
 	// ---------- (2) origin of the directive text
 	c09Origin(c, pk, commentStmtEx, "commentStmtEx", paramObj(commentStmtEx, info, 2), obj(checkStmtDoc), "")
